@@ -41,6 +41,7 @@ type jcase struct {
 	form      int  // Logger entry point
 	direct    bool // Handler.Handle with a generated instant
 	instant   time.Time
+	prime     lm.Prime // a record logged through another handler right before this one
 }
 
 func (c jcase) render() string {
@@ -123,6 +124,9 @@ func labelShapes(c jcase) {
 	}
 	walk(c.attrs, false, true)
 	ev.Label(fmt.Sprintf("chain_len:%d", len(c.chain)))
+	if c.prime.Use {
+		ev.Label("history:another_handler_logged_a_nearby_instant_just_before")
+	}
 }
 
 // run executes the case against the real handler and returns "" if the oracle is satisfied.
@@ -139,6 +143,7 @@ func run(c jcase) (msg string, payloadLen int) {
 		dh := lm.DeriveHandlerWithDecoys(h, c.chain, c.decoys)
 		pc, f, l := lm.CallerPC()
 		file, line = f, l
+		c.prime.Run(c.instant, c.addSource)
 		r := slog.NewRecord(c.instant, c.level, c.msg, pc)
 		r.AddAttrs(lm.Attrs(c.attrs)...)
 		if err := dh.Handle(context.Background(), r); err != nil {
@@ -147,6 +152,7 @@ func run(c jcase) (msg string, payloadLen int) {
 		exp = append(exp, lm.EMember{Key: "time", Exp: lm.Exp{Kind: lm.ETime, T: c.instant}})
 	} else {
 		l := lm.DeriveWithDecoys(logger.New(h), c.chain, c.decoys)
+		c.prime.Run(time.Now(), c.addSource)
 		before := time.Now()
 		file, line = lm.Emit(l, c.form, c.level, c.msg, c.attrs)
 		after := time.Now()
@@ -188,6 +194,7 @@ func genCase(t *rapid.T) jcase {
 	if c.direct {
 		c.instant = lm.GenInstant().Draw(t, "instant")
 	}
+	c.prime = lm.GenPrime(genOpts).Draw(t, "prime")
 	if len(c.chain) > 0 {
 		c.decoys = lm.GenDecoys(genOpts, len(c.chain)).Draw(t, "decoys")
 	}
